@@ -2,7 +2,9 @@
 import sys
 
 import os
+import re
 from ..facts import AnalysisBroken
+from .. import facts
 from ..engine import Engine, run_entry, new_state, mk_obj
 from ..absint import Val
 from ..port import PortModel
@@ -28,7 +30,8 @@ class FrameSetup(object):
     def __init__(self, prog, mtu_ok=True, alloc_may_fail=True, fresh_state=False, init_cells=None):
         self.prog = prog
         self.ix = prog.unit(BLOCK_UNIT)
-        for f in ('parseFrame', 'lltd_state_for_iface'):
+        self.lookup = state_lookup_name(prog)
+        for f in ('parseFrame', self.lookup):
             if f not in self.ix.functions:
                 raise AnalysisBroken('anchor function %s vanished from %s' % (f, BLOCK_UNIT))
         self.mtu_ok = mtu_ok
@@ -43,8 +46,16 @@ class FrameSetup(object):
         self.init_cells = init_cells      # {offset: (width, term)} overriding the symbolic entry record
         self.frame_size = PortModel.MTU if mtu_ok else ('sym', 'rxbuf.size', 1500, 9216)
 
+    # fields of the interface record whose C type is unique in the struct: found by type when renamed
+    UNIQUE_TYPES = {'next': r'struct lltd_iface_state \*', 'see_list': r'probe_t \*', 'see_list_count': r'uint32_t', 'mapper_known': r'uint8_t',
+                    'small_icon_size': r'size_t'}
+
     def soff(self, name):
         f = self.srec.field(name)
+        if f is None and name in self.UNIQUE_TYPES:
+            c = [x for x in self.srec.fields if re.fullmatch(self.UNIQUE_TYPES[name], x[2].strip())]
+            if len(c) == 1:
+                f = c[0]
         if f is None:
             raise AnalysisBroken('field lltd_iface_state.%s vanished' % name)
         return f[1]
@@ -90,7 +101,7 @@ class FrameSetup(object):
         out = []
         if self.alloc_may_fail:
             f = st.fork()
-            f.effect(('malloc-failed', 'heap:lltd_state_for_iface#0'))
+            f.effect(('malloc-failed', 'heap:%s#0' % self.lookup))
             out.append((f, Val(rty, ZERO)))
         out.append((st, Val(rty, ('ptr', 'st', ZERO))))
         return out
@@ -101,7 +112,7 @@ class FrameSetup(object):
         return [Val(vp, ('ptr', 'frame', ZERO)), Val(vp, ('ptr', 'ext:ctx', ZERO))]
 
     def run(self, engine_cls=Engine, tracked=(TOS, OPC), extra_summaries=None, pre=None, name='parseFrame'):
-        sums = {'lltd_state_for_iface': self.summary_state_for_iface}
+        sums = {self.lookup: self.summary_state_for_iface}
         if extra_summaries:
             sums.update(extra_summaries)
         E = engine_cls(self.prog, port=self.port, summaries=sums, entry_name=name)
@@ -343,11 +354,41 @@ def entry_icon_exists(fs, st):
     return None
 
 
+_LOOKUP_CACHE = {}
+
+
+def state_lookup_name(prog):
+    """Name of the function that maps an interface context to its record: by its role, not its spelling - the function
+    parseFrame calls directly whose result type is a pointer to the interface record (`lltd_state_for_iface` today)."""
+    key = id(prog)
+    if key in _LOOKUP_CACHE:
+        return _LOOKUP_CACHE[key]
+    ix = prog.unit(BLOCK_UNIT)
+    pf = ix.functions.get('parseFrame')
+    if pf is None:
+        raise AnalysisBroken('anchor function parseFrame vanished')
+    cands = []
+    for n in facts.walk(pf):
+        if n.get('kind') == 'CallExpr' and n.get('inner'):
+            c = n['inner'][0]
+            while c.get('kind') in ('ImplicitCastExpr', 'ParenExpr'):
+                c = c['inner'][0]
+            if c.get('kind') == 'DeclRefExpr':
+                rd = c.get('referencedDecl', {})
+                qt = (rd.get('type') or {}).get('qualType', '')
+                if re.match(r'\s*(struct\s+)?lltd_iface_state\s*\*\s*\(', qt) and rd.get('name') in ix.functions and rd['name'] not in cands:
+                    cands.append(rd['name'])
+    if len(cands) != 1:
+        raise AnalysisBroken('cannot identify the interface-record lookup called from parseFrame (candidates %s)' % cands)
+    _LOOKUP_CACHE[key] = cands[0]
+    return cands[0]
+
+
 def request_alloc(oid):
     """A heap object allocated while the frame is handled (not one of the harness's entry placeholders), whatever
     function the allocation sits in."""
     oid = str(oid)
-    return oid.startswith('heap:') and oid != 'heap:cached.icon' and not oid.startswith('heap:port.') and not oid.startswith('heap:lltd_state_for_iface')
+    return oid.startswith('heap:') and oid != 'heap:cached.icon' and not oid.startswith('heap:port.') and not oid.startswith(('heap:lltd_state_for_iface', 'heap:record-lookup'))
 
 
 def icon_invariant(rep, rule, fs, res, fnf='lltdResponder/lltdBlock.c'):
@@ -408,5 +449,5 @@ def queryresp_length_ok(fs, st, snap):
     want = ('add', ('mul', C(20), announced), C(34))
     L = snap.length
     exact = st.same(L, want) or (st.prove_le(L, want) and st.prove_le(want, L))
-    short_ok = (not exact) and any(str(k).startswith('exit:parseQuery#') for k in st.tags) and st.prove_le(L, want)
+    short_ok = (not exact) and any(str(k).startswith('exit:') for k in st.tags) and st.prove_le(L, want)
     return exact or short_ok, announced, short_ok
